@@ -228,6 +228,7 @@ static int st_first;
 /* receiver variants: 0 mpt_stream_dispatch on a plain stream, 1 the input object of mpt_stream_input
  * (its own dispatch), 2 mpt_stream_sync with a table of waiting commands */
 static int st_mode, st_rfd = -1;
+static int st_inmsg, st_torn;   /* data written since the last end of message; part of that message flushed already */
 static MPT_INTERFACE(input) *st_in;
 #define ST_NCMD 9
 static struct { MPT_STRUCT(buffer) hdr; MPT_STRUCT(command) cmd[ST_NCMD]; } st_tab;
@@ -316,7 +317,7 @@ static void st_cmd(void)
 			st_tab.hdr._used = sizeof(st_tab.cmd);
 			st_wait._buf = &st_tab.hdr;
 		}
-		st_ready = 1; st_sent = st_got = st_moved = 0;
+		st_ready = 1; st_sent = st_got = st_moved = 0; st_inmsg = st_torn = 0;
 		printf("R %s | C - | I -\n", (r1 < 0 || r2 < 0) ? "failed" : "ok");
 	}
 	else if (!st_ready) puts("bad-op");
@@ -324,16 +325,25 @@ static void st_cmd(void)
 		if (drv_parse_data(drv_w[2], &dat, &dlen, &isnull) || isnull || !dlen) { puts("bad-op"); free(dat); return; }
 		ssize_t n = mpt_stream_push(&tx, dlen, dat);
 		free(dat);
+		if (n > 0) st_inmsg = 1;
 		printf("R %s n=%s | C - | I -\n", n == (ssize_t) dlen ? "ok" : "short", retname(n, buf, sizeof(buf)));
 	}
 	else if (!strcmp(op, "term") && drv_nw == 2) {
 		ssize_t n = mpt_stream_push(&tx, 0, 0);
-		if (n >= 0) ++st_sent;
+		if (n >= 0) { ++st_sent; st_inmsg = st_torn = 0; }
 		printf("R %s | C - | I -\n", n >= 0 ? "ok" : "refused");
 	}
 	else if (!strcmp(op, "flush") && drv_nw == 2) {
 		int r = mpt_stream_flush(&tx);
+		if (st_inmsg) st_torn = 1;
 		printf("R %s | C - | I -\n", r < 0 ? "failed" : "ok");
+	}
+	else if (!strcmp(op, "abort") && drv_nw == 2) {
+		/* give up the message in progress (only asked for while nothing of it has left the queue) */
+		if (!st_inmsg || st_torn) { puts("R skipped | C - | I -"); return; }
+		ssize_t n = mpt_stream_push(&tx, 1, 0);
+		if (n >= 0) st_inmsg = 0;
+		printf("R %s | C - | I -\n", n >= 0 ? "ok" : "refused");
 	}
 	else if (!strcmp(op, "deliver") && drv_nw == 3) {
 		/* the transport: move the next bytes from the sender's socket to the receiver's socket */
